@@ -172,8 +172,8 @@ func AttrGroupID(id int64) string {
 //	http://www.llvm.org/docs/LangRef.html#identifiers
 func ComdatName(name string) string {
 	// Numeric comdat names are quoted; an unquoted comdat name may not start
-	// with a digit.
-	if isNumeric(name) {
+	// with a digit. The empty comdat name is quoted; a lone `$` is not a token.
+	if isNumeric(name) || len(name) == 0 {
 		return `$"` + name + `"`
 	}
 	return "$" + EscapeIdent(name)
